@@ -107,9 +107,9 @@ def run(tier, seed):
     t0 = time.time()
     total = Result()
     if tier == 'quick':
-        nseq, variants, mult = 2200, [('release', 1.0), ('dev', 0.3), ('std', 0.15)], 1
+        nseq, variants, mult = 2200, [('release', 1.0), ('dev', 0.3), ('std', 0.15), ('bare', 0.15)], 1
     else:
-        nseq, variants, mult = 50000, [('release', 1.0), ('dev', 0.2), ('std', 0.1)], 8
+        nseq, variants, mult = 50000, [('release', 1.0), ('dev', 0.2), ('std', 0.1), ('bare', 0.1)], 8
     try:
         for variant, frac in variants:
             binary = build(variant)
